@@ -19,7 +19,8 @@ open Biogo.Properties.C19
 #print axioms seq_fail
 #print axioms seq_recover
 #print axioms seq_laws_table
-#print axioms model_is_of_this_source
+#print axioms runMacro_reach
+#print axioms driver_runs_are_reachable
 #print axioms double_close
 #print axioms double_close_both_at_hook
 #print axioms send_on_closed
